@@ -86,6 +86,15 @@ var templates = []func(u string) string{
 		return "try {\nfunc() { defer rec(\"deferred\"); throw \"inner\" + base }()\n} catch e" + u + " { rec(e" + u + ") } finally { rec(\"fin\") }"
 	},
 	func(u string) string { return "k" + u + " = 0\nfor { k" + u + "++; if k" + u + " > 2 { break }; if k" + u + " == 1 { continue }; rec(k" + u + ") }" },
+	func(u string) string {
+		return "n" + u + " = 6 * 7\nw" + u + " = &n" + u + "\n*w" + u + " = base\nrec(n" + u + ")\nrec(6 * 7)\nrec(*w" + u + ")"
+	},
+	func(u string) string {
+		return "z" + u + " = 4000 + 95\ny" + u + " = &z" + u + "\n*y" + u + " += 1\nrec(4095 + 0)\nrec(z" + u + ")"
+	},
+	func(u string) string {
+		return "t" + u + " = make([]int64, 2)\nt" + u + "[0] = 2 * 3\nq" + u + " = &t" + u + "[0]\n*q" + u + " = 9\nrec(t" + u + "[0])\nrec(2 * 3)"
+	},
 }
 
 func Render(w *Work) string {
@@ -346,6 +355,39 @@ const globalsSrc = "r = []\nr += 4095 + 0\nr += 4095 + 1\nr += -1 + 0\nr += -2 +
 	"import(\"strings\").ToLower = func(a) { return \"hacked\" }\nr += import(\"strings\").ToLower(\"Z\")\nr\n"
 const globalsWant = "[4095 4096 -1 -1 -2 6 4 true true false false 4096 X hacked Y z]"
 
+// the loop is driven by a host slice, so that a corrupted cache slot cannot make the scan itself diverge
+const scanSrc = "s = 0\nq = 0\nfor v in vals {\nw = v + 0\ns += w\nq += w * w\n}\n[s, q]\n"
+
+var scanStmt, _ = parser.ParseSrc(scanSrc)
+
+var scanVals = func() []int64 {
+	var vs []int64
+	for i := int64(-2); i <= 4097; i++ {
+		vs = append(vs, i)
+	}
+	return vs
+}()
+
+// ScanSmallInts computes every integer of the cached range (and one on each
+// side) and checks sum and sum of squares: any overwritten cache slot shows.
+func ScanSmallInts() string {
+	e := env.NewEnv()
+	e.Define("vals", scanVals)
+	v, err := vm.Run(e, &vm.Options{}, scanStmt)
+	if err != nil {
+		return "scan script failed: " + err.Error()
+	}
+	var sum, sq int64
+	for _, i := range scanVals {
+		sum += i
+		sq += i * i
+	}
+	if got, want := fmt.Sprint(v), fmt.Sprintf("[%d %d]", sum, sq); got != want {
+		return "computing every integer in -2..4097: [sum, sum of squares] = " + got + ", want " + want
+	}
+	return ""
+}
+
 // ProcessGlobals evaluates expressions that depend on the process-wide shared
 // values and returns a description of any deviation.
 func ProcessGlobals() string {
@@ -374,6 +416,8 @@ func (Prop) Run(t *testing.T, c *harness.Case, verbose bool) *harness.Result {
 	}
 	fail := func(class, detail string) *harness.Result {
 		res.Violation = class
+		// whatever the class, a run that left process-wide state corrupted taints this worker process
+		res.Tainted = class == "process-globals" || ProcessGlobals() != "" || ScanSmallInts() != ""
 		res.Detail = detail + "\n" + src
 		res.Signature = class
 		return res
@@ -456,6 +500,9 @@ func (Prop) Run(t *testing.T, c *harness.Case, verbose bool) *harness.Result {
 		return fail("packages-changed", "env.Packages / env.PackageTypes changed during execution")
 	}
 	if g := ProcessGlobals(); g != "" {
+		return fail("process-globals", "process-wide shared values were modified by execution: "+g)
+	}
+	if g := ScanSmallInts(); g != "" {
 		return fail("process-globals", "process-wide shared values were modified by execution: "+g)
 	}
 	return res
